@@ -591,8 +591,16 @@ def run(ctx):
     alphabet = EXH_ALPHABET if ctx.thorough else [EXH_ALPHABET[i] for i in (0, 1, 2, 3, 5, 6, 7, 9, 12, 13, 14)]
     bad = [(p, d, alphabet, EXH_INIT) for p, d in exhaustive(ctx, depth, alphabet)]
     # every operation kind (dtype conversion, tidy_up, masks, fresh append_field, copy(), read-only, failing constructor / sort)
-    dfull = 3
-    bad += [(p, d, EXH_FULL, EXH_INIT) for p, d in exhaustive(ctx, dfull, EXH_FULL)]
+    if ctx.thorough:
+        dfull = 3
+        bad += [(p, d, EXH_FULL, EXH_INIT) for p, d in exhaustive(ctx, dfull, EXH_FULL)]
+    else:
+        # quick: all pairs over the full alphabet, all triples over the letters outside the core + four core letters
+        dfull = 2
+        bad += [(p, d, EXH_FULL, EXH_INIT) for p, d in exhaustive(ctx, 2, EXH_FULL)]
+        extra = EXH_FULL[len(EXH_ALPHABET):] + [EXH_ALPHABET[i] for i in (0, 5, 6, 9)]
+        bad += [(p, d, extra, EXH_INIT) for p, d in exhaustive(ctx, 3, extra)]
+        ctx.extra['exhaustive_extra_alphabet_depth3'] = len(extra)
     ctx.extra['exhaustive_depth'] = depth
     ctx.extra['exhaustive_alphabet'] = len(alphabet)
     ctx.extra['exhaustive_full_alphabet'] = len(EXH_FULL)
